@@ -27,7 +27,7 @@ HYPOTHESES = [
 ]
 PROFILES = ["release", "chk"]
 TIMEOUT = 120.0
-RULE = ("primes(k): every k <= 20000 (oracle; model-compared for k <= 1500 and a sample beyond), the full list for k = 20000, boundary k of the "
+RULE = ("primes(k): every k <= 20000 (oracle; model-compared for k <= 800 and a sample beyond), the full list for k = 20000, boundary k of the "
         "bound formula, the u32-overflow k in the checked profile; PrimeSieve: blocks 0..39, 200 sampled, the last 3 and the end markers "
         "element-wise against an independent segmented sieve, the complete walk of 65536 blocks (count, order, emptiness, end); "
         "SmoothBase::new: every B1 <= 5000 with and without large blocks, every B1 within 150 of 4096 and 65536, prime-power neighbours, "
@@ -126,9 +126,9 @@ def primes_cases(tier, rng, extended):
     yield Case("primes_list 0", tag="primes")
     yield Case("primes_list 1", tag="primes")
     yield Case("primes_list 2", tag="primes")
-    ks = set(range(0, 1501))
-    for _ in range(300 if not extended else 3000):
-        ks.add(rng.randrange(1500, 20001))
+    ks = set(range(0, 801))
+    for _ in range(150 if not extended else 3000):
+        ks.add(rng.randrange(800, 20001))
     for e in range(1, 15):
         ks.update({(1 << e) - 1, 1 << e, (1 << e) + 1})
     ks.update({20, 21, 24, 25, 26, 6541, 6542, 6543, 20000})
@@ -205,23 +205,33 @@ def b1_values(tier, rng, extended, lo):
     return sorted(vals)
 
 
+def model_compared(b1, rng, extended, nb):
+    """which B1 are also run through the Lean model (all of them in the extended search)"""
+    if extended or b1 <= 600 or abs(b1 - 4096) <= 25 or abs(b1 - 65536) <= 12 or b1 in nb or b1 in (10 ** 5, 500000, 10 ** 6):
+        return True
+    if b1 <= 5000:
+        return b1 % 6 == 0
+    return b1 <= 300000 and rng.randrange(8) == 0
+
+
 def smooth_cases(tier, rng, extended):
     for b1 in (0, 1):
         for lg in (0, 1):
             yield Case(f"sb_new {b1} {lg}", tag="smoothbase")
+    nb = prime_power_neighbours(70000)
     for b1 in b1_values(tier, rng, extended, 2):
-        big = b1 > 300000
+        k = model_compared(b1, rng, extended, nb)
         for lg in (0, 1):
-            yield Case(f"sb_new {b1} {lg}", k=(not big or b1 in (500000, 10 ** 6)), tag="smoothbase")
+            yield Case(f"sb_new {b1} {lg}", k=k, tag="smoothbase")
 
 
 def pm1_cases(tier, rng, extended):
     yield Case("pm1base", tag="pm1base")
     for b1 in (0, 1, 2, 3):
         yield Case(f"pm1_exponents {b1}", o=False, tag="pm1")      # assert!(b1 > 3)
+    nb = prime_power_neighbours(70000)
     for b1 in b1_values(tier, rng, extended, 4):
-        big = b1 > 300000
-        yield Case(f"pm1_exponents {b1}", k=(not big or b1 in (500000, 10 ** 6)), tag="pm1")
+        yield Case(f"pm1_exponents {b1}", k=model_compared(b1, rng, extended, nb), tag="pm1")
 
 
 def cases(tier, rng, extended=False):
@@ -305,7 +315,20 @@ def missing_power(blocks, b1, include_equal):
     return None
 
 
+_MEMO = {}
+
+
 def oracle(case, ans):
+    # both profiles usually give the same answer: judge it once
+    key = (case.line, hash(ans), len(ans))
+    if key not in _MEMO:
+        if len(_MEMO) > 200000:
+            _MEMO.clear()
+        _MEMO[key] = oracle1(case, ans)
+    return _MEMO[key]
+
+
+def oracle1(case, ans):
     op, a = case.op, case.args
     if ans in ("panic", "abort", "hang", "?") or ans.startswith("unexpected"):
         return f"no value returned ({ans})"
